@@ -3548,3 +3548,38 @@ impl InconsistentTopicStatus {
         status
     }
 }
+
+/// Verification hooks (guard: `--cfg dust_dds_verif`): thin public wrappers around the private QoS
+/// compatibility and partition pattern functions of this module. They add no behaviour.
+#[cfg(dust_dds_verif)]
+pub mod verif {
+    use super::*;
+
+    pub fn discovered_reader_incompatible_qos_policy_list(
+        writer_qos: &DataWriterQos,
+        discovered_reader_data: &SubscriptionBuiltinTopicData,
+        publisher_qos: &PublisherQos,
+    ) -> Vec<QosPolicyId> {
+        get_discovered_reader_incompatible_qos_policy_list(
+            writer_qos,
+            discovered_reader_data,
+            publisher_qos,
+        )
+    }
+
+    pub fn discovered_writer_incompatible_qos_policy_list(
+        data_reader: &DataReaderEntity<impl RtpsReader>,
+        publication_builtin_topic_data: &PublicationBuiltinTopicData,
+        subscriber_qos: &SubscriberQos,
+    ) -> Vec<QosPolicyId> {
+        get_discovered_writer_incompatible_qos_policy_list(
+            data_reader,
+            publication_builtin_topic_data,
+            subscriber_qos,
+        )
+    }
+
+    pub fn partition_pattern_to_regex(pattern: &str) -> String {
+        fnmatch_to_regex(pattern)
+    }
+}
